@@ -24,18 +24,27 @@ var _ = Service("svc", func() {
 			Field(9, "tenant", String)
 			Field(10, "u", UInt32)
 			Field(11, "mode", String, func() { Enum("ro", "rw") })
+			Field(12, "ids", ArrayOf(UInt64))
 			Required("id", "tenant")
 		})
 		Result(func() {
 			Field(1, "rid", String)
 			Field(2, "item", Item)
 			Field(3, "etag", String)
-			Required("rid")
+			Required("rid", "item")
 		})
 		GRPC(func() {
 			Metadata(func() {
 				Attribute("tenant")
 				Attribute("mode")
+				Attribute("ids")
+			})
+			// explicit response message listing required result attributes
+			Response(CodeOK, func() {
+				Message(func() {
+					Attribute("item")
+					Attribute("rid")
+				})
 			})
 		})
 	})
